@@ -457,6 +457,9 @@ def run(ctx: Ctx) -> None:
                             "two variables that swap their values change the signature")
         n19 = _pkr(ctx, "C14.R19")
         rep.floor("C14.R19", n19, 3)
+    rep.rule("C14.R20", "exactly the accepted modules are tracked, also those accepted while the evaluation runs: the analysis context holds the live set of accepted packages")
+    n20 = accepted_set_is_live(ctx, "C14.R20")
+    rep.floor("C14.R20", n20, 2)
     from .common import refusal_live
     rep.rule("C14.R15", "a callable of a non-accepted module handed to dds.keep / dds.eval is refused whether it is a function or a class: in both entry functions of the analysis "
                         "the resolution of the call tree's paths (the step that raises 'module not accepted') is live code")
@@ -569,4 +572,65 @@ def base_classes_tracked(ctx: Ctx, rule: str) -> int:
             rep.bad(rule, f.qname, desc, f.loc(), [f"{f.loc()}: the class is analysed from the methods of its own body; `node.bases` is never read",
                     "`class Child(Base)` with Base in another accepted module: editing Base.get changes no signature of a function that calls Child().get(): the stale result is served"],
                     "base-classes", what="methods inherited from a base class of an accepted module are not tracked")
+    return n
+
+
+def accepted_set_is_live(ctx: Ctx, rule: str) -> int:
+    """The per-evaluation analysis context looks the accepted packages up in the very set that dds.accept_module fills - handed over and stored without a copy - so that a
+    package accepted while the evaluation runs (a package that accepts itself when it is first imported, by the analysis) is seen by that evaluation."""
+    from .roles import accepted_attr
+    rep = ctx.report
+    prog = ctx.prog
+    k = prog.cls("dds._eval_ctx.EvalMainContext")
+    init = k.methods.get("__init__") if k is not None else None
+    if init is None:
+        raise AnchorError("dds._eval_ctx.EvalMainContext.__init__ not found")
+    attr = accepted_attr(ctx)
+    n = 0
+    for st in init.own_nodes():
+        if isinstance(st, (ast.Assign, ast.AnnAssign)) and st.value is not None:
+            t = st.targets[0] if isinstance(st, ast.Assign) else st.target
+            if isinstance(t, ast.Attribute) and isinstance(t.value, ast.Name) and t.value.id == "self" and t.attr == attr:
+                n += 1
+                desc = f"the analysis context keeps the set of accepted packages itself in self.{attr}"
+                if isinstance(st.value, ast.Name) and st.value.id in init.params:
+                    rep.ok(rule, init.qname, desc, init.loc(st))
+                else:
+                    rep.bad(rule, init.qname, desc, init.loc(st), [f"{init.loc(st)}: `{unparse(st, 60)}` stores a copy / a derived value",
+                            "a package that calls dds.accept_module for itself in its __init__.py and is first imported by the analysis (function-local import) is not seen by that "
+                            "evaluation: edits of its functions change no signature in the first evaluation of the process, and the second evaluation of the same code gets another signature"],
+                            "accepted-copy", what="the evaluation works on a snapshot of the accepted packages: a package accepted during the analysis is not tracked")
+    # construction sites hand over the module-level set that accept_module mutates
+    acc = prog.func("dds.introspect.accept_module")
+    mut = set()
+    if acc is not None:
+        for y in acc.own_nodes():
+            if isinstance(y, ast.Call) and isinstance(y.func, ast.Attribute) and y.func.attr in ("add", "update") and isinstance(y.func.value, ast.Name):
+                mut.add(y.func.value.id)
+    for f in prog.funcs.values():
+        if not f.module.name.startswith("dds"):
+            continue
+        for c in f.own_nodes():
+            if isinstance(c, ast.Call) and (prog.dotted(f, c.func) or "").endswith("EvalMainContext"):
+                init_params = [p_ for p_ in init.positional_params() if p_ != "self"]
+                # the parameter that feeds the accepted attribute
+                ps = [p_ for p_ in init_params for st in init.own_nodes() if isinstance(st, (ast.Assign, ast.AnnAssign)) and st.value is not None
+                      and any(isinstance(y, ast.Name) and y.id == p_ for y in ast.walk(st.value))
+                      and isinstance((st.targets[0] if isinstance(st, ast.Assign) else st.target), ast.Attribute) and (st.targets[0] if isinstance(st, ast.Assign) else st.target).attr == attr]
+                if not ps:
+                    continue
+                val = None
+                for kw in c.keywords:
+                    if kw.arg == ps[0]:
+                        val = kw.value
+                if val is None and ps[0] in init_params and init_params.index(ps[0]) < len(c.args):
+                    val = c.args[init_params.index(ps[0])]
+                if val is None:
+                    continue
+                n += 1
+                desc = "the evaluation is given the set that accept_module fills (not a copy of it)"
+                if isinstance(val, ast.Name) and (not mut or val.id in mut):
+                    rep.ok(rule, f.qname, desc, f.loc(c))
+                else:
+                    rep.bad(rule, f.qname, desc, f.loc(c), [f"{f.loc(c)}: `{ps[0]}={unparse(val, 50)}`"], stmt_key(c), what="the evaluation is given a copy of the accepted packages")
     return n
